@@ -395,12 +395,23 @@ type aliasMap struct {
 }
 
 func (am aliasMap) varAliases(k string) (vals []string) {
+	return am.walkAliases(k, map[string]struct{}{})
+}
+
+// walkAliases follows the alias chain of k, onPath holds the names currently being expanded
+// so that a cycle ($a := $b, $b := $a) is followed only once instead of forever.
+func (am aliasMap) walkAliases(k string, onPath map[string]struct{}) (vals []string) {
 	vals = append(vals, k)
+	onPath[k] = struct{}{}
 	if as, ok := am.aliases[k]; ok {
 		for val := range as {
-			vals = append(vals, am.varAliases(val)...)
+			if _, ok := onPath[val]; ok {
+				continue
+			}
+			vals = append(vals, am.walkAliases(val, onPath)...)
 		}
 	}
+	delete(onPath, k)
 	return vals
 }
 
